@@ -26,6 +26,7 @@ Print Assumptions c17_restoring_pushd_suffices.
 
 Theorem c17_pairs_exact : forall F W root popped rb rr paths,
   good F -> (forall p, w_filter W root p <> FRaise) ->
+  (f_filter_in_try F = true \/ forall q, w_filter W root q <> FRaiseIO) ->
   let res := changed_notebooks F W root popped rb rr paths in
   pairs_of res = map (entry_pair F W root rb rr)
                      (filter (entry_is_nb F) (w_diff W (tree_of_base rb) rr (map (fun p => popped ++ p) paths)))
